@@ -1,6 +1,8 @@
 import Bmc.Wire.Encode
-import Bmc.Crypto.Hash
-/-! Byte-level model of `bmc.V2Session.buildAndSend` / `SendCommand` (v2session.go), pinned tree. -/
+/-! Byte-level model of `bmc.V2Session.buildAndSend` / `SendCommand` (v2session.go).
+
+The connection's reusable layers are explicit state: decoding a reply overwrites the very layers the next
+attempt serialises from, so they are rebuilt at the top of every attempt. -/
 namespace Bmc.Proto
 open Bmc Bmc.Wire Bmc.Crypto
 
@@ -31,6 +33,7 @@ structure Cmd where
   ent : Nat := 0
   lun : UInt8 := 0
   req : Bytes := []
+  reqFails : Bool := false      -- the request layer's SerializeTo returns an error
   deriving Repr
 
 inductive Outcome where
@@ -40,12 +43,13 @@ inductive Outcome where
 
 inductive Res where
   | ok (code : UInt8) (payload : Bytes)
-  | transportErr
+  | transportErr                 -- Send failed inside a session: terminal
+  | serializeErr                 -- the request could not be serialised: terminal, nothing transmitted
   | ctxExpired
   | crashed                      -- a decoder panicked (no recovery on this path)
   deriving Repr, DecidableEq
 
-/-- the three struct literals at the top of `buildAndSend` -/
+/-- the three struct literals at the top of the retry closure -/
 def initLayers (s : Sess) (c : Cmd) : Sess :=
   { s with
     rmcp := { version := 6, sequence := 0xFF, ack := false, cls := 7 }
@@ -53,7 +57,8 @@ def initLayers (s : Sess) (c : Cmd) : Sess :=
     msg := { function := c.fn, body := c.body, enterprise := c.ent, command := c.cmd
              remoteAddress := 0x20, remoteLUN := c.lun, localAddress := 0x81, sequence := 1 } }
 
-/-- one pass of the retry closure up to the transmission: bump the counter, serialise from the CURRENT layers -/
+/-- serialise the next datagram: sequence number = counter + 1, committed to the counter because serialisation
+    succeeded (`Cmd.reqFails` is handled by the caller) -/
 def attempt (C : Ops) (s : Sess) (c : Cmd) (iv : Bytes) : Sess × Bytes :=
   let s := { s with inbound := (s.inbound + 1) % 4294967296 }
   let s := { s with v2 := { s.v2 with sequence := s.inbound } }
@@ -69,9 +74,8 @@ inductive Decoded where
   | message                       -- innermost layer is the message layer
   deriving Repr, DecidableEq
 
-/-- gopacket `LayersDecoder` over [RMCP, SessionSelector, V2Session, AES, Message], writing into the
-    session's layers. `minRsp`/`guardStart` select pinned (7/false) or repaired (8/true) decoders. -/
-def onReply (C : Ops) (minRsp : Nat) (guardStart : Bool) (s : Sess) (d : GoSlice) : Sess × Decoded :=
+/-- gopacket `LayersDecoder` over [RMCP, SessionSelector, V2Session, AES, Message], writing into the session's layers -/
+def onReply (C : Ops) (s : Sess) (d : GoSlice) : Sess × Decoded :=
   match RMCP.decodeGo s.rmcp d with
   | .err => (s, .fail)
   | .panic | .overread => (s, .crash)
@@ -90,7 +94,7 @@ def onReply (C : Ops) (minRsp : Nat) (guardStart : Bool) (s : Sess) (d : GoSlice
       let inner := GoSlice.ofBytes v.payload
       let msgIn : R GoSlice :=
         if v.encrypted then
-          match AESLayer.decodeGo C s.k2 guardStart {} inner with
+          match AESLayer.decodeGo C s.k2 true {} inner with
           | .ok a => .ok (GoSlice.ofBytes a.payload)
           | .err => .err | .panic => .panic | .overread => .overread
         else .ok inner
@@ -99,44 +103,42 @@ def onReply (C : Ops) (minRsp : Nat) (guardStart : Bool) (s : Sess) (d : GoSlice
       | .panic | .overread => (s, .crash)
       | .ok mi =>
         if mi.len == 0 then (s, .notMessage) else
-        match Message.decodeGo minRsp s.msg mi with
+        match Message.decodeGo 8 s.msg mi with
         | .err => (s, .fail)
         | .panic | .overread => (s, .crash)
         | .ok m => ({ s with msg := m }, .message)
 
 def isTemp (c : UInt8) : Bool := c == 0xC0 || c == 0xC3
 
-/-- the retry loop; `ivs` = the 16-byte draws from crypto/rand, one per attempt; script exhausted = context expired.
-    `initEach = false` is the pinned tree (layers initialised once, before the loop). -/
-def sendLoop (C : Ops) (minRsp : Nat) (guardStart initEach : Bool) (c : Cmd) :
-    Sess → List Bytes → List Outcome → Sess × List Bytes × Res
+/-- the acceptance test applied to a decoded reply: authenticated when an integrity algorithm was negotiated,
+    addressed to this session, and a response to this very operation -/
+def acceptable (s0 : Sess) (c : Cmd) (s : Sess) : Bool :=
+  (s0.integ == 0 || s.v2.authenticated) && s.v2.id == s0.localID &&
+  s.msg.function == c.fn + 1 && s.msg.command == c.cmd && s.msg.body == c.body && s.msg.enterprise == c.ent
+
+/-- the retry loop; `ivs` = the 16-byte draws from crypto/rand, one per attempt; an empty script = the context has expired -/
+def sendLoop (C : Ops) (c : Cmd) : Sess → List Bytes → List Outcome → Sess × List Bytes × Res
   | s, _, [] => (s, [], .ctxExpired)
   | s, [], _ => (s, [], .ctxExpired)
   | s, iv :: ivs, o :: rest =>
-    let s0 := if initEach then initLayers s c else s
-    let (s1, pkt) := attempt C s0 c iv
+    if c.reqFails then (initLayers s c, [], .serializeErr) else
+    let (s1, pkt) := attempt C (initLayers s c) c iv
     match o with
     | .lost => (s1, [pkt], .transportErr)
     | .reply d =>
-      match onReply C minRsp guardStart s1 (GoSlice.ofBytes d) with
+      match onReply C s1 (GoSlice.ofBytes d) with
       | (s2, .crash) => (s2, [pkt], .crashed)
       | (s2, .message) =>
-        -- repaired tree: unauthenticated packets, other sessions' packets and replies to other commands are retried
-        if initEach && ((s.integ != 0 && !s2.v2.authenticated) || s2.v2.id != s.localID
-            || s2.msg.function != c.fn + 1 || s2.msg.command != c.cmd) then
-          let (s3, ps, r) := sendLoop C minRsp guardStart initEach c s2 ivs rest
-          (s3, pkt :: ps, r)
+        if acceptable s c s2 && !isTemp s2.msg.completionCode then
+          (s2, [pkt], .ok s2.msg.completionCode s2.msg.payload)
         else
-        if isTemp s2.msg.completionCode then
-          let (s3, ps, r) := sendLoop C minRsp guardStart initEach c s2 ivs rest
+          let (s3, ps, r) := sendLoop C c s2 ivs rest
           (s3, pkt :: ps, r)
-        else (s2, [pkt], .ok s2.msg.completionCode s2.msg.payload)
       | (s2, _) =>
-        let (s3, ps, r) := sendLoop C minRsp guardStart initEach c s2 ivs rest
+        let (s3, ps, r) := sendLoop C c s2 ivs rest
         (s3, pkt :: ps, r)
 
-def send (C : Ops) (minRsp : Nat) (guardStart initEach : Bool) (s : Sess) (c : Cmd) (ivs : List Bytes)
-    (script : List Outcome) : Sess × List Bytes × Res :=
-  sendLoop C minRsp guardStart initEach c (initLayers s c) ivs script
+def send (C : Ops) (s : Sess) (c : Cmd) (ivs : List Bytes) (script : List Outcome) : Sess × List Bytes × Res :=
+  sendLoop C c s ivs script
 
 end Bmc.Proto
